@@ -272,11 +272,19 @@ func runC14(c *Ctx) {
 		mux := &mqtt.ServeMux{}
 		var invoked []int
 		hasInvalid := false
+		mutate := li%2 == 1 // every other registration list uses handlers that rewrite what they receive
 		names := make([]string, len(l))
 		for pos, pi := range l {
 			pos := pos
 			names[pos] = c14Pool[pi]
-			err := mux.Handle(c14Pool[pi], mqtt.HandlerFunc(func(m *mqtt.Message) { invoked = append(invoked, pos) }))
+			err := mux.Handle(c14Pool[pi], mqtt.HandlerFunc(func(m *mqtt.Message) {
+				invoked = append(invoked, pos)
+				// a handler owns what it receives; rewriting it must not change who else is invoked
+				if mutate {
+					m.Topic = "b/a"
+					m.Payload = append(m.Payload[:0], 9)
+				}
+			}))
 			if poolWhy[pi] != "" {
 				hasInvalid = true
 				if err == nil {
